@@ -88,8 +88,10 @@ func newDirectRig(c Case) *rig {
 
 var miniSeq atomic.Int64
 
+const setupKey = "C02/harness/mini-setup"
+
 func harnessFail(what string, err error) *failure {
-	return &failure{key: "C02/harness/mini-setup", detail: fmt.Sprintf("%s: %v", what, err)}
+	return &failure{key: setupKey, detail: fmt.Sprintf("%s: %v", what, err)}
 }
 
 // connectWith accepts a connection on the mini-server whose server-side end is far (so that the
